@@ -13,6 +13,48 @@ fn stub_container_from_format(_format: &str) -> Option<&'static str> {
 
 const IDS: [&str; 9] = ["jpg", "png", "gif", "tif", "jxl", "avi", "avif", "flac", "mp3"];
 
+// The signature table, restated independently of the code: which container the leading bytes identify.
+// (An ID3v2 tag identifies MP3, or FLAC when the 4 bytes behind the tag are `fLaC`.)
+fn spec_container(b: &[u8]) -> Option<&'static str> {
+    let n = b.len();
+    let at = |i: usize, v: &[u8]| -> bool { n >= i + v.len() && &b[i..i + v.len()] == v };
+    if n < 2 {
+        return None;
+    }
+    if at(0, &[0xff, 0xd8, 0xff]) {
+        return Some("jpg");
+    }
+    if at(0, &[0x89, 0x50, 0x4e, 0x47, 0x0d, 0x0a, 0x1a, 0x0a]) {
+        return Some("png");
+    }
+    if at(0, b"GIF87a") || at(0, b"GIF89a") {
+        return Some("gif");
+    }
+    if at(0, &[0x49, 0x49, 0x2a, 0x00]) || at(0, &[0x4d, 0x4d, 0x00, 0x2a]) || at(0, &[0x49, 0x49, 0x2b, 0x00]) || at(0, &[0x4d, 0x4d, 0x00, 0x2b]) {
+        return Some("tif");
+    }
+    if at(0, &[0x00, 0x00, 0x00, 0x0c, 0x4a, 0x58, 0x4c, 0x20, 0x0d, 0x0a, 0x87, 0x0a]) {
+        return Some("jxl");
+    }
+    if at(0, b"RIFF") {
+        return Some("avi");
+    }
+    if at(4, b"ftyp") {
+        return Some("avif");
+    }
+    if at(0, b"fLaC") {
+        return Some("flac");
+    }
+    if n >= 10 && at(0, b"ID3") {
+        let tag = ((b[6] as usize & 0x7f) << 21) | ((b[7] as usize & 0x7f) << 14) | ((b[8] as usize & 0x7f) << 7) | (b[9] as usize & 0x7f);
+        return if at(10 + tag, b"fLaC") { Some("flac") } else { Some("mp3") };
+    }
+    if b[0] == 0xff && (b[1] & 0xe0) == 0xe0 {
+        return Some("mp3");
+    }
+    None
+}
+
 // complete: 20 symbolic bytes, symbolic length 0..=20, every container class for the hint (or none)
 #[kani::proof]
 #[kani::stub(container_from_format, stub_container_from_format)]
@@ -24,6 +66,7 @@ fn c11_hint_independent() {
     let mut cur = Cursor::new(&data[..len]);
     let detected = container_from_stream(&mut cur);
     assert!(cur.position() == 0, "stream rewound after sniffing");
+    assert!(detected == spec_container(&data[..len]), "the leading bytes identify the container (signature table)");
     let hsel: usize = kani::any();
     kani::assume(hsel <= IDS.len());
     unsafe {
